@@ -46,7 +46,16 @@ fn check_e1302_vehicle_shift_time(ctx: &ValidationContext) -> Result<(), FormatE
                     ]
                 })
                 .collect::<Vec<_>>();
-            if check_raw_time_windows(&tws, false) { None } else { Some(vehicle.type_id.to_string()) }
+            let has_valid_latest = vehicle
+                .shifts
+                .iter()
+                .filter_map(|shift| shift.start.latest.as_ref())
+                .all(|latest| parse_time_safe(latest).is_ok());
+            if check_raw_time_windows(&tws, false) && has_valid_latest {
+                None
+            } else {
+                Some(vehicle.type_id.to_string())
+            }
         })
         .collect::<Vec<_>>();
 
